@@ -54,6 +54,8 @@ inline bool withinCapacity(const Snap &s, std::string *why = nullptr) {
     {   // POINT/ANALOG label tables are addressed with one byte
         for (auto &g : s.groups) if (g.name == "POINT" || g.name == "ANALOG") for (auto &p : g.params) if (p.type == -1 && p.strs.size() > 255) return bad("more than 255 labels");
     }
+    // the header words are 16 bits wide; without frames the sub-frame count comes from the ratio of the declared rates
+    if (s.h.nb3dPoints > 65535 || s.h.nbAnalogByFrame > 65535 || s.h.nbAnalogsMeasurement > 65535 || s.h.nbAnalogs * s.h.nbAnalogByFrame > 65535) return bad("header capacity (analog samples per frame)");
     if (!s.frames.empty()) {
         if (s.frames[0].pts.size() > 255) return bad("more than 255 points");
         size_t sub = s.frames[0].subs.size(), ch = sub ? s.frames[0].subs[0].size() : 0;
